@@ -452,6 +452,11 @@ func observe(st storage.Store) (map[string]*gobs, []string, string) {
 			}
 		}
 		sort.Strings(o.plain)
+		// the graph must also answer its two-component lookups from the same contents
+		// (a statement that corrupts an index has changed the graph)
+		if bad := indexedView(g, ts); bad != "" {
+			o.bad = bad
+		}
 		for id, lines := range byBlank {
 			sort.Strings(lines)
 			o.groups = append(o.groups, strings.Join(lines, " ; "))
@@ -462,6 +467,60 @@ func observe(st storage.Store) (map[string]*gobs, []string, string) {
 		out[n] = o
 	}
 	return out, ln, ""
+}
+
+// indexedView checks that every listed triple is found again through the S+P,
+// P+O and S+O lookups of the driver.
+func indexedView(g storage.Graph, ts []*triple.Triple) string {
+	for _, t := range ts {
+		want := model.TripleKey(t)
+		found := func(got []*triple.Triple) bool {
+			for _, x := range got {
+				if model.TripleKey(x) == want {
+					return true
+				}
+			}
+			return false
+		}
+		drain := func(call func(ch chan *triple.Triple) error) []*triple.Triple {
+			ch := make(chan *triple.Triple, 64)
+			done := make(chan []*triple.Triple, 1)
+			go func() {
+				var out []*triple.Triple
+				for x := range ch {
+					out = append(out, x)
+				}
+				done <- out
+			}()
+			if err := call(ch); err != nil {
+				return nil
+			}
+			return <-done
+		}
+		sp := drain(func(ch chan *triple.Triple) error {
+			return g.TriplesForSubjectAndPredicate(model.Ctx, t.Subject(), t.Predicate(), storage.DefaultLookup, ch)
+		})
+		po := drain(func(ch chan *triple.Triple) error {
+			return g.TriplesForPredicateAndObject(model.Ctx, t.Predicate(), t.Object(), storage.DefaultLookup, ch)
+		})
+		if !found(sp) || !found(po) {
+			return "a listed triple is not returned by the S+P / P+O lookups of its graph: " + t.String()
+		}
+		pch := make(chan *predicate.Predicate, 64)
+		okp := false
+		go func() {
+			g.PredicatesForSubjectAndObject(model.Ctx, t.Subject(), t.Object(), storage.DefaultLookup, pch)
+		}()
+		for pr := range pch {
+			if model.PredKey(pr) == model.PredKey(t.Predicate()) {
+				okp = true
+			}
+		}
+		if !okp {
+			return "a listed triple is not returned by the S+O lookup of its graph: " + t.String()
+		}
+	}
+	return ""
 }
 
 func exec(st storage.Store, s stmt, bulk int) *bqlm.Result {
@@ -558,7 +617,11 @@ func checkPath(alpha []stmt, seed []int, path []int, bulk int) (ok bool, class, 
 				continue
 			}
 			if og.bad != "" {
-				return false, class, "blank-node-not-fresh", hist() + "\n " + og.bad, nil, false
+				sh := "blank-node-not-fresh"
+				if strings.Contains(og.bad, "of its graph") {
+					sh = "listing-and-indexed-lookups-disagree"
+				}
+				return false, class, sh, hist() + "\n " + og.bad, nil, false
 			}
 			wp := mg.plain.Keys()
 			wg := append([]string{}, mg.groups...)
